@@ -501,3 +501,4 @@ def _state(ctx, index):
     ctx.count("state_functions", len(reach))
     ctx.need(len(reach) >= 10, "the sync_properties pipeline shrank to {} functions: call graph no longer resolves it".format(len(reach)))
     c10._modstate(ctx.view(lambda w: getattr(w, "qual", None) in reach, rule="C13.state", prefix="state_"))
+    c10.cachekey_rule(ctx, "C13.state", reach)
